@@ -107,7 +107,9 @@ class RAMResults(BaseResults):
     def _generate_key(self, strategy_name, dataset_name, cv_fold, train_or_test):
         """Function to get paths for files, this basically encapsulate the
         storage logic of the class"""
-        return f"{strategy_name}_{dataset_name}_{train_or_test}_{str(cv_fold)}"
+        # a tuple, not the names joined by "_": names may contain that character, and
+        # ("clf", "a_b") and ("clf_a", "b") must not share a record
+        return (strategy_name, dataset_name, train_or_test, str(cv_fold))
 
 
 class HDDResults(HDDBaseResults):
